@@ -9,6 +9,16 @@ Arguments wt : simpl never.
 Lemma mem_app x a b : mem x (a ++ b) = mem x a || mem x b.
 Proof. unfold mem. apply existsb_app. Qed.
 
+Lemma mem_union x a b : mem x (union a b) = mem x a || mem x b.
+Proof.
+  unfold union. rewrite mem_app. destruct (mem x a) eqn:Ea; simpl; [reflexivity|].
+  unfold mem in *. induction b as [|y b IH]; simpl; [reflexivity|].
+  destruct (existsb (Nat.eqb y) a) eqn:Ey; simpl.
+  - rewrite IH. destruct (Nat.eqb x y) eqn:Exy; simpl; [|reflexivity].
+    apply Nat.eqb_eq in Exy; subst. rewrite Ey in Ea. discriminate.
+  - rewrite IH. reflexivity.
+Qed.
+
 Lemma mem_cons x y l : mem x (y :: l) = Nat.eqb x y || mem x l.
 Proof. reflexivity. Qed.
 
@@ -90,11 +100,11 @@ Section env.
     destruct o; simpl in *; auto.
   Qed.
 
-  Lemma env_ok_app_l G a b r : env_ok D G a r -> env_ok D G (a ++ b) r.
-  Proof. intro H. eapply env_ok_weaken; eauto. intros i Hi. rewrite mem_app, Hi. reflexivity. Qed.
+  Lemma env_ok_app_l G a b r : env_ok D G a r -> env_ok D G (union a b) r.
+  Proof. intro H. eapply env_ok_weaken; eauto. intros i Hi. rewrite mem_union, Hi. reflexivity. Qed.
 
-  Lemma env_ok_app_r G a b r : env_ok D G b r -> env_ok D G (a ++ b) r.
-  Proof. intro H. eapply env_ok_weaken; eauto. intros i Hi. rewrite mem_app, Hi. apply orb_true_r. Qed.
+  Lemma env_ok_app_r G a b r : env_ok D G b r -> env_ok D G (union a b) r.
+  Proof. intro H. eapply env_ok_weaken; eauto. intros i Hi. rewrite mem_union, Hi. apply orb_true_r. Qed.
 
   Lemma env_ok_subset G a b r : env_ok D G a r -> subset a b = true -> env_ok D G b r.
   Proof. intros H Hs. eapply env_ok_weaken; eauto. intros i Hi. eapply subset_mem; eauto. Qed.
